@@ -19,6 +19,17 @@ per client, callbacks and disconnect handlers, what was published, every contain
 Oracle (model-free): the same stream without its inert garbage, on the real code, has the same
 observable effect — every valid message after a piece of garbage is fully applied; `hA` never
 applies what it published itself; a `callback` for another host completes nothing.
+Application code that is ACTIVE inside the listener (`active_part`, oracle only — the model has no application
+code that calls back into the server): the callbacks of hA's cross-server `emit(..., callback=cb)` (their acknowledgement
+comes back as a `callback` message) and the disconnect handlers of hA's clients (a published `disconnect`) call the
+server's own API — emit with and without callback, enter/leave/close_room, disconnect of another local or of a remote
+client, rooms, save_session — and some raise afterwards.  The real `_thread()` takes the channel one entry at a time:
+threaded manager on a listener thread of its own, the whole case under a wall-clock watchdog that does nothing but
+turn a listener that never returns into a report (with the stacks of the case's threads); asyncio manager: the loop is
+run until nothing is runnable and a listener task still pending then is the report.  Judged by the statement (every
+entry processed, the last emit of the stream delivered, every callback / handler run once, the application's calls
+returned normally, were published, reached the client that stays) and against a second run of the same case in which
+the same calls are made from outside the listener right after it finished the entry.
 Redis backends (both tiers, more in the thorough one), with a fake `redis` package:
   * `RedisManager` / `AsyncRedisManager._listen()` driven directly over connection plans: the retry loop's sleeps
     (1, 2, 4, ... capped at 60, reset by a successful reconnect) and that nothing is dropped (`redis_part`, compared
@@ -1497,7 +1508,7 @@ def judge_active(ctx, family, case, limits=ACT_LIMITS, verbose=False):
 
 def active_part(ctx):
     rng = ctx.rng
-    n = ctx.scale(220, 3000)
+    n = ctx.scale(220, 2000)
     cov = collections.Counter()
     failures = 0
     sample = None
@@ -2448,6 +2459,11 @@ def run(ctx):
         'samples': samples, 'traces_validated_against_impl': validated,
     })
     ctx.assumptions += [
+        'application code active inside the listener: oracle only (no model); scripts name by sid only clients that '
+        'nothing disconnects (what is done BY NAME to a client whose disconnect handler is running is not compared: it is '
+        'half gone then) and what a client receives after its DISCONNECT packet is ignored; callbacks are coroutine '
+        'functions on the asyncio server; the wall clock is used as a watchdog only (%.0f s, the case is started again '
+        'and given %.0f s before a hang is believed)' % ACT_LIMITS,
         'garbage is drawn from the classes the model distinguishes (DMsg field classes); values outside them '
         '(falsy containers as namespaces, tuples as room names for room operations, unhashable ack ids, objects '
         'whose unpickling runs code) are not generated',
